@@ -103,13 +103,15 @@ def bounded(
     def validator(obj):
         if not check_type(obj, numeric_type):
             return False
-        if ge is not None and obj < ge:
+        # (Stated positively, so that a value that compares false with
+        # everything - NaN - is out of bounds rather than within them.)
+        if ge is not None and not obj >= ge:
             return False
-        if gt is not None and obj <= gt:
+        if gt is not None and not obj > gt:
             return False
-        if le is not None and obj > le:
+        if le is not None and not obj <= le:
             return False
-        if lt is not None and obj >= lt:
+        if lt is not None and not obj < lt:
             return False
         return True
 
